@@ -671,6 +671,11 @@ def cases(draw, tier):
             'catch': draw(st.sampled_from(['inside', 'outside']))}
 
 
+@st.composite
+def crowd_cases(draw):
+    return {'crowd': {'n': draw(st.integers(1100, 1600)), 'kind': draw(st.sampled_from(['container', 'store', 'resource']))}}
+
+
 class C19(Check):
     pid = 'C19'
     level = 'exploration'
@@ -683,7 +688,7 @@ class C19(Check):
             'the documented policies. non-trivial = a request had to wait, or was cancelled/preempted, or a filter matched '
             'nothing; distinct by sha1. Also: repeated cancels, explicit request()/release() users, and Containers with decimal '
             'amounts (fill/drain aimed at the bounds) judged by invariants only; users that come back for another turn in the activation '
-            'that released their slot.')
+            'that released their slot; crowds of 1100-1600 requests made grantable by one operation.')
     budgets = {'quick': dict(examples=2400, procs=4), 'thorough': dict(examples=300000, procs=16)}
     level_text = ('Model-based history check: per request grant time and value, per-queue grant order, inspector observations '
                   '(level/items/users/queue lengths) between operations, Preempted details (by, usage_since, resource), '
@@ -693,9 +698,83 @@ class C19(Check):
     design_ref = 'DESIGN.md section 5, C19'
 
     def strategy(self, tier):
-        return cases(tier)
+        return st.integers(0, 149).flatmap(lambda k, tier=tier: crowd_cases() if k == 0 else cases(tier))
+
+    def crowd_case(self, case):
+        """more than a thousand requests become grantable by one operation: all of them are granted in that time step, in
+        the order in which they were issued, and the level / slots add up"""
+        from usim.py import Environment
+        from usim.py.resources.container import Container
+        from usim.py.resources.resource import Resource
+        from usim.py.resources.store import Store
+        out = Outcome()
+        out.evals = 1
+        n, kind = case['crowd']['n'], case['crowd']['kind']
+        granted = []
+        p = Probe(b_step=100 * n, b_total=400 * n)
+        _TLS.stack.append(p)
+        # (Hypothesis raises the interpreter's recursion limit while it runs a test; a user's program has the default one)
+        limit = sys.getrecursionlimit()
+        sys.setrecursionlimit(1000)
+        try:
+            env = Environment()
+            if kind == 'container':
+                res = Container(env, init=0)
+            elif kind == 'store':
+                res = Store(env)
+            else:
+                res = Resource(env, capacity=n)
+
+            def waiter(i):
+                if kind == 'resource':
+                    yield env.timeout(1)
+                    req = res.request()
+                else:
+                    req = res.get(1) if kind == 'container' else res.get()
+                yield req
+                granted.append((i, env.now))
+
+            def opener():
+                if kind == 'resource':
+                    reqs = [res.request() for _ in range(n)]      # takes every slot at time 0
+                    yield env.timeout(5)
+                    for r in reqs:
+                        res.release(r)
+                else:
+                    yield env.timeout(5)
+                    if kind == 'container':
+                        yield res.put(n)
+                    else:
+                        for j in range(n):
+                            res.put(j)
+                yield env.timeout(1)
+            if kind == 'resource':
+                env.process(opener())
+            for i in range(n):
+                env.process(waiter(i))
+            if kind != 'resource':
+                env.process(opener())
+            env.run(until=50)
+            level = res.level if kind == 'container' else (len(res.items) if kind == 'store' else res.count)
+        except BaseException as e:      # noqa
+            out.fail('crowd', 'crowd_%s:%s' % (kind, type(e).__name__), 'a crowd of %d requests: %r' % (n, e))
+            return out
+        finally:
+            sys.setrecursionlimit(limit)
+            _TLS.stack.pop()
+        if [g[0] for g in granted] != list(range(n)) or any(t != 5 for _, t in granted):
+            out.fail('crowd', 'crowd_%s:grants' % kind, '%d of %d requests granted, first at %r, last at %r, in order: %s' % (
+                len(granted), n, granted[0][1] if granted else None, granted[-1][1] if granted else None,
+                [g[0] for g in granted] == sorted(g[0] for g in granted)))
+        elif level != (n if kind == 'resource' else 0):
+            out.fail('crowd', 'crowd_%s:level' % kind, 'after %d grants the level / item count / user count is %r' % (n, level))
+        out.nontrivial = True
+        out.features.add('crowd_' + kind)
+        return out
 
     def run_case(self, case, tier='quick'):
+        if 'crowd' in case:
+            return self.crowd_case(case)
         out = Outcome()
         out.evals = 1
         sys.unraisablehook = vlib.interp._unraisable
